@@ -4,6 +4,8 @@
 // Every pruning call must justify itself:  (a) the reason holds in the current state,
 // (b) constraint /\ reason ==> propagated fact.  From these the *verified wrappers* below derive that no
 // solution of the constraint is removed.
+// membership of a value in the domain of a variable, as the store answers it
+pub uninterp spec fn dom_contains<V: IntegerVariable>(live: Live, var: &V, v: int) -> bool;
 pub trait ReasonLike: Sized {
     spec fn holds(&self, a: Asg) -> bool;
 }
@@ -72,6 +74,7 @@ impl<'a> PropagationContextMut<'a> {
     #[verifier::external_body]
     pub fn contains<V: IntegerVariable>(&self, var: &V, value: i32) -> (r: bool)
         ensures !r ==> forall|a: Asg| #![trigger (self.live())(a)] (self.live())(a) ==> var.eval(a) != value,
+                r == dom_contains(self.live(), var, value as int),    // a function of the store (what a lazy reason can refer to later)
     { unimplemented!() }
 
     // ---- pruning: core (assumed) + verified wrapper deriving the soundness facts ----
